@@ -137,21 +137,59 @@ def suffix_with_faults(cat, chunks):
     return m(len(cat), len(chunks) - 1)
 
 
-def run_fault_seq(res, mb, bc, sizes, fault_at, slack, ctx=''):
+class _FaultyOs:
+    """stand-in for `os` inside circus.stream.file_stream: one chosen call fails once (a source-free failpoint)"""
+
+    def __init__(self):
+        self.arm = None         # name of the function whose next call raises
+
+    def _maybe(self, name):
+        if self.arm == name:
+            self.arm = None
+            raise OSError(5, 'Input/output error (injected into os.%s)' % name)
+
+    def rename(self, *a, **k):
+        self._maybe('rename')
+        return os.rename(*a, **k)
+
+    def remove(self, *a, **k):
+        self._maybe('remove')
+        return os.remove(*a, **k)
+
+    def __getattr__(self, n):
+        return getattr(os, n)
+
+
+def run_fault_seq(res, mb, bc, sizes, fault_at, slack, ctx='', kind='efbig'):
     """writes with the operating system refusing to extend the file (EFBIG through RLIMIT_FSIZE, the same errno
     family as a full disk) during the writes listed in fault_at; the refusal is lifted right after the call"""
     import resource
     from circus.stream.file_stream import FileStream
+    import circus.stream.file_stream as fsmod
     d = scratch()
     path = os.path.join(d, 'out.log')
     st = FileStream(filename=path, max_bytes=mb, backup_count=bc)
     soft, hard = resource.getrlimit(resource.RLIMIT_FSIZE)
+    faulty = _FaultyOs()
+    real_os = fsmod.os
+    if kind != 'efbig':
+        fsmod.os = faulty
     chunks = []
     refused = 0
     try:
         for k, n in enumerate(sizes):
             data = payload(k, n)
-            if k in fault_at:
+            if k in fault_at and kind != 'efbig':
+                # the next os.rename / os.remove made by the stream (inside a rollover) fails once
+                faulty.arm = kind
+                try:
+                    st({'data': data, 'pid': 4242})
+                    chunks.append((data, False))
+                except OSError:
+                    chunks.append((data, True))
+                    refused += 1
+                faulty.arm = None
+            elif k in fault_at:
                 cur = os.path.getsize(path) if os.path.exists(path) else 0
                 resource.setrlimit(resource.RLIMIT_FSIZE, (cur + slack, hard))
                 try:
@@ -165,7 +203,13 @@ def run_fault_seq(res, mb, bc, sizes, fault_at, slack, ctx=''):
                 if st._file is None or st._file.closed:
                     st._file = st._open()        # the refusal hit the rollover itself: what a caller's retry would do
             else:
-                st({'data': data, 'pid': 4242})
+                try:
+                    st({'data': data, 'pid': 4242})
+                except Exception as e:      # noqa
+                    res.violation('C20/write-raised-after-a-transient-fault:%s' % type(e).__name__,
+                                  'write %d raised %r although the fault (%s at writes %s) was over (%s)'
+                                  % (k, e, kind, sorted(fault_at), ctx))
+                    break
                 chunks.append((data, False))
             res.obs['writes'] += 1
             backs, active = files_state(path)
@@ -178,6 +222,7 @@ def run_fault_seq(res, mb, bc, sizes, fault_at, slack, ctx=''):
                               'marked True may be kept in part) (%s k=%d)' % (cat[-100:], chunks[-6:], ctx, k))
                 break
     finally:
+        fsmod.os = real_os
         resource.setrlimit(resource.RLIMIT_FSIZE, (soft, hard))
         try:
             st.close()
@@ -188,7 +233,7 @@ def run_fault_seq(res, mb, bc, sizes, fault_at, slack, ctx=''):
 
 
 def run_seq(res, mb, bc, sizes, pre_active='', pre_backs=None, time_format=None, reopen_at=(), newline=False,
-            uni=False, ctx='', fname='out.log'):
+            uni=False, ctx='', fname='out.log', as_bytes=False):
     from circus.stream.file_stream import FileStream
     d = scratch()
     path = os.path.join(d, fname)
@@ -215,7 +260,8 @@ def run_seq(res, mb, bc, sizes, pre_active='', pre_backs=None, time_format=None,
             data = payload(k, n, newline, uni)
             before_active = os.path.getsize(path) if os.path.exists(path) else 0
             try:
-                st({'data': data, 'pid': 4242})
+                # the redirector hands over what it read from the pipe: bytes
+                st({'data': data.encode('utf8') if as_bytes else data, 'pid': 4242})
             except Exception as e:      # noqa
                 res.violation('C20/write-raised:%s' % type(e).__name__, 'writing %d characters to %r raised %r (%s)'
                               % (len(data), os.path.basename(path), e, ctx))
@@ -229,7 +275,7 @@ def run_seq(res, mb, bc, sizes, pre_active='', pre_backs=None, time_format=None,
                 hist += prefix + data.rstrip('\n').replace('\n', '\n' + prefix) + '\n'
             written.append(len(data.encode('utf8')))
             if time_format is None:
-                nb = check_state(res, path, hist, mb, bc, judged_size=not uni, ctx='%s sizes=%s k=%d' % (ctx, list(sizes), k),
+                nb = check_state(res, path, hist, mb, bc, judged_size=(not uni) or as_bytes, ctx='%s sizes=%s k=%d' % (ctx, list(sizes), k),
                                  written_sizes=written)
                 after_active = os.path.getsize(path)
                 if mb > 0 and bc > 0 and after_active < before_active + len(data.encode('utf8')):
@@ -289,9 +335,10 @@ def run_case(spec):
         bc = rnd.randint(1, 3) if mb else 0
         nw = rnd.randint(3, 30)
         base = [1, 2, 3, 5, 9, 17, 40] + ([mb // 2, mb - 1] if mb else []) + ([9000] if rnd.random() < 0.1 else [])
+        kind = rnd.choice(['efbig', 'efbig', 'rename', 'remove']) if mb else 'efbig'
         args = dict(mb=mb, bc=bc, sizes=[max(1, rnd.choice(base)) for _ in range(nw)],
                     fault_at=sorted(rnd.sample(range(nw), rnd.randint(1, 3))), slack=rnd.choice([0, 0, 1, 2, 7]),
-                    ctx='fault max_bytes=%d backup_count=%d' % (mb, bc))
+                    ctx='fault(%s) max_bytes=%d backup_count=%d' % (kind, mb, bc), kind=kind)
         nv = len(res.viol)
         a = dict(args)
         a['fault_at'] = set(a['fault_at'])
@@ -329,6 +376,8 @@ def run_case(spec):
         args['reopen_at'] = tuple(rnd.sample(range(nw), min(nw, rnd.randint(1, 6))))
     if mode == 'uni':
         args['uni'] = True
+        # half of them as the bytes a pipe delivers: then "size" is unambiguous (bytes) and is judged
+        args['as_bytes'] = rnd.random() < .5
     if rnd.random() < .1:
         # file names that are legal and look like format strings
         args['fname'] = rnd.choice(['app-%Y%m%d.log', 'cpu100%.log', '%s.log', 'cpu%%.log', 'a b.log', 'ü.log', '%d'])
